@@ -552,10 +552,10 @@ def scenario(rng, profile):
             return rng.choice(others)
         return rng.choice([1, 2, max(1, R.last_req()), R.last_req() + 1, 99])
 
-    def rnd_api():
+    def rnd_api(force=None, only_sub=None):
         shape = rng.choice(SHAPES)
         args, kwargs = list(shape[0]), dict(shape[1])
-        choice = rng.choice(["call", "call", "publish", "publish", "subscribe", "subscribe", "register", "unsubscribe", "unregister", "cancel"])
+        choice = force or rng.choice(["call", "call", "publish", "publish", "subscribe", "subscribe", "register", "unsubscribe", "unregister", "cancel"])
         if choice == "cancel":
             # the caller cancels a call result: usually a pending one, sometimes one already completed / cancelled before
             live = [r for r in pending_ids("call") if r not in R.cancelled]
@@ -667,7 +667,7 @@ def scenario(rng, profile):
                 R.track(fut, rid)
             api("register", f)
         elif choice == "unsubscribe":
-            active = [(k, subl) for k, subl in R.subs_objs.items() for sub in subl if sub.active]
+            active = [(k, subl) for k, subl in R.subs_objs.items() for sub in subl if sub.active and only_sub in (None, k[0])]
             if not active:
                 return
             (sub_id, hid), subl = rng.choice(active)
@@ -699,7 +699,7 @@ def scenario(rng, profile):
                 R.track(fut, rid)
             api("unregister", f, reg=reg.id)
 
-    def rnd_router(joined):
+    def rnd_router(joined, force=None, force_sub=None):
         import copy
         shape = rng.choice(SHAPES)
         args, kwargs = list(shape[0]), dict(shape[1])
@@ -712,7 +712,7 @@ def scenario(rng, profile):
             pool += ["invocation"] * 6 + ["interrupt"] * 3 + ["registered"] * 3
         if profile == "c04":
             pool += ["result"] * 4 + ["error"] * 3
-        t = rng.choice(pool)
+        t = force or rng.choice(pool)
         if t == "result":
             rid = pick_req("call")
             progress = rng.random() < 0.35
@@ -762,7 +762,7 @@ def scenario(rng, profile):
             rid = pick_req("unregister")
             rx(message.Unregistered(rid), dict(t="unregistered", req=rid))
         elif t == "event":
-            sub = rng.choice([11, 11, 12, 13])
+            sub = force_sub or rng.choice([11, 11, 12, 13])
             pubid = rng.randint(1000, 9999)
             R.event_expect = (args, kwargs, pubid)
             p_, q_ = 0, 0
@@ -942,6 +942,27 @@ def scenario(rng, profile):
             api("subscribe", f1, h=hid)
             rid1 = R.last_req()
             rx(message.Subscribed(rid1, 11), dict(t="subscribed", req=rid1, sub=11, unsub=False))
+    if s._session_id is not None and profile == "c11" and rng.random() < 0.3:
+        # a handler gets attached to a subscription id between the UNSUBSCRIBE for that id and its UNSUBSCRIBED: the router
+        # has dropped the subscription, so UNSUBSCRIBED ends it for every handler, and a later EVENT for the id is a violation
+        rnd_api(force="subscribe")
+        rid_s = R.last_req()
+        for _ in range(8):
+            if not any(sub.active for (sid_, _h), subl in R.subs_objs.items() if sid_ == 11 for sub in subl):
+                break
+            rnd_api(force="unsubscribe", only_sub=11)
+        un = [r for r in pending_ids("unsubscribe")]
+        if rid_s in pending_ids("subscribe") and un and not R.lost_flag:
+            known_subs.append(11)
+            flagged = bool(R.requests.get(rid_s, {}).get("unsub_on_reply"))
+            rx(message.Subscribed(rid_s, 11), dict(t="subscribed", req=rid_s, sub=11, unsub=flagged))
+            if rng.random() < 0.3:
+                rnd_router(True, force="event", force_sub=11)
+            rx(message.Unsubscribed(un[-1]), dict(t="unsubscribed", req=un[-1]))
+            if rng.random() < 0.6:
+                rnd_router(True, force="event", force_sub=11)
+            else:
+                rnd_api(force="unsubscribe", only_sub=11)
     steps = rng.randint(4, 16)
     R.tr.sync_close = profile == "c06" and rng.random() < 0.25
     for _ in range(steps):
